@@ -1,5 +1,7 @@
 SPECIFICATION TSpec
 CONSTANTS
   Keys <- MCKeys
+  CommitOrder = "pif"
+  Faults = {}
 POSTCONDITION Post
 CHECK_DEADLOCK FALSE
